@@ -91,6 +91,18 @@ pub fn run_c06(ctx: &mut Ctx, _replay: Option<&[String]>) {
         enc.push(format!("{}={},girth<=6:{}", name, acc, girth));
         ctx.emit(&format!("c06 {}", name), &dump(&h), true, &[if name.ends_with("short") { "short-frame" } else { "normal-frame" }]);
     }
+    // the codes again in another order: pairs with the same number of parity rows n - k generated right after each other (both orders)
+    let all: Vec<(dvbs2::Code, usize)> = enum_iterator::all::<dvbs2::Code>().map(|c| { let m = c.h().num_rows(); (c, m) }).collect();
+    for (a, ma) in &all {
+        for (b, mb) in &all {
+            let (na, nb) = (format!("{:?}", a), format!("{:?}", b));
+            if na != nb && ma == mb {
+                let _ = a.h();
+                let hb = b.h();
+                ctx.emit(&format!("c06 {}", nb), &dump(&hb), true, &["generated-right-after-a-code-with-the-same-n-k"]);
+            }
+        }
+    }
     ctx.extra.insert("encoder_and_girth".into(), enc.join(" "));
 }
 
